@@ -109,6 +109,13 @@ fn select_in_word_ctz(x: u64, k: u32) -> u32 {
     }
 }
 
+/// The CTZ fallback of [`select_in_word`], callable directly by the external verification
+/// harness (the dispatcher never reaches it on a host with fast BMI2).
+#[cfg(feature = "verif-hooks")]
+pub fn verif_select_in_word_ctz(x: u64, k: u32) -> u32 {
+    select_in_word_ctz(x, k)
+}
+
 /// Select the k-th set bit using broadword/SWAR algorithm.
 ///
 /// This implementation uses the broadword/SWAR technique from Vigna's paper.
